@@ -142,7 +142,7 @@ func (fc *FnCtx) enterLoop(s *State, li *loopInfo) *State {
 	}
 	env := fc.loopEnv(s, li)
 	for _, h := range li.spec.Hints {
-		if h.Where == "head" {
+		if h.Where == "head" || h.Where == "entry" {
 			fc.applyHint(s, env, h, fmt.Sprintf("loop %d entry", li.ordinal))
 		}
 	}
@@ -167,7 +167,7 @@ func (fc *FnCtx) enterLoop(s *State, li *loopInfo) *State {
 		nv := fc.freshVal(fmt.Sprintf("%s_L%d", c.Name, li.ordinal), c.Typ)
 		s.cells[c] = nv
 	}
-	frame := &Frame{NAlloc0: s.heap["nalloc"], NObj0: s.heap["nobj"], What: fmt.Sprintf("loop %d", li.ordinal)}
+	frame := &Frame{NAlloc0: s.heap["nalloc"], NObj0: s.heap["nobj"], What: fmt.Sprintf("loop %d", li.ordinal), loop: li}
 	if li.spec.HasMod {
 		frame.Declared = true
 		for _, m := range li.spec.Modifies {
